@@ -47,7 +47,7 @@ def run(ctx):
                              realised='line index, pool index'))
     # two edits: the first edit is fixed per condition, the second ranges over op x distance x pool
     firsts = [(0, 0, 4, 1), (1, 0, 3, 2), (2, 1, 5, 0), (5, 1, 6, 0), (0, 2, 2, 11), (4, 0, 4, 15)] if q else \
-        [(b, op, i, p) for b in range(len(diffh.BASES)) for op in range(3) for i in (1, 4, 7) for p in (1, 3, 5, 11, 16)]
+        [(b, op, i, p) for b in range(len(diffh.BASES)) for op in range(3) for i in (1,) for p in (1, 16)]
     for b, op1, i1, p1 in firsts:
         C.append(xh.Cond(H, 'history2', timeout=400 if q else 900, path_timeout=30, name='diff/two-edits/base%d/%d-%d-%d' % (b, op1, i1, p1),
                          extra_pre=['b == %d' % b, 'op1 == %d' % op1, 'i1 == %d' % i1, 'p1 == %d' % p1] + (
